@@ -210,3 +210,4 @@ def mean_spatial_gradient(vc):
     vc.ensures("one_entry_per_dimension", vc.ndim(g) == 1 and g.shape[0] == d)
     for c in range(d):
         vc.ensures("entry_is_dm_dq", g[c] == derivative(val, _d_q("q", c)))
+import contracts.matrix_laws  # noqa: F401  (numerical self-test of the matrix layer's axioms)
